@@ -499,6 +499,29 @@ impl<'a> Exec<'a> {
             };
             (kind, shape)
         };
+        // memory accesses whose byte range reaches the top of the 64-bit address space are
+        // outside the address assumption shared with C08 (the statement does not define
+        // wrap-around; falcon's address arithmetic overflows there): not judged
+        {
+            let sh = &party.shadow;
+            let touches_top = match sh.prog.instr(&sh.loc).map(|i| &i.op) {
+                Some(il::Operation::Load { dst, index }) => crate::val::eval(index, &sh.st.scalars)
+                    .ok()
+                    .and_then(|a| a.to_u64())
+                    .map(|a| a.checked_add(dst.bits() as u64 / 8 + 1).is_none()),
+                Some(il::Operation::Store { index, src }) => {
+                    match (crate::val::eval(index, &sh.st.scalars), crate::val::eval(src, &sh.st.scalars)) {
+                        (Ok(a), Ok(v)) => a.to_u64().map(|a| a.checked_add(v.bits as u64 / 8 + 1).is_none()),
+                        _ => None,
+                    }
+                }
+                _ => None,
+            };
+            if touches_top == Some(true) {
+                self.c.inc("ref.access-at-top-of-address-space-unjudged");
+                return None;
+            }
+        }
         let sharing = {
             let pages = d.state().memory().pages();
             let mut keys: Vec<&u64> = pages.keys().collect();
@@ -1002,7 +1025,14 @@ impl<'a> Gen<'a> {
 fn code_bytes(rng: &mut Rng, arch: Arch, at: u64) -> Vec<u8> {
     let mut slots: Vec<Slot> = Vec::new();
     let n = rng.range(1, 5);
+    let straight = crate::c06::straight_units(arch);
     for _ in 0..n {
+        if !straight.is_empty() && rng.chance(1, 3) {
+            // an instruction harvested from falcon's own lifter tests: richer IL for the
+            // executor (wide values, multi-block instruction graphs)
+            slots.push(Slot::Raw(rng.pick(&straight).clone()));
+            continue;
+        }
         slots.push(Slot::Op {
             form: rng.below(asm::num_forms(arch) as u64) as u8,
             a: rng.below(8) as u8,
@@ -1130,7 +1160,36 @@ pub fn generate(run_seed: u64, index: u64) -> Script {
         };
         scalars.push((n.to_string(), format!("{:x}", v.v), *b));
     }
-    for (n, b) in asm::reg_names(arch) {
+    let mut regs: Vec<(String, usize)> = asm::reg_names(arch).iter().map(|(n, b)| (n.to_string(), *b)).collect();
+    match arch.family() {
+        "x86" => {
+            if arch == Arch::Amd64 {
+                for k in 8..16 {
+                    regs.push((format!("r{}", k), 64));
+                }
+            }
+            for k in 0..8 {
+                regs.push((format!("xmm{}", k), 128));
+            }
+            regs.push(("fs_base".into(), arch.addr_bits()));
+            regs.push(("gs_base".into(), arch.addr_bits()));
+        }
+        "mips" => {
+            for n in ["$a1", "$a2", "$a3", "$v1", "$s1", "$s2", "$sp", "$gp", "$at"] {
+                regs.push((n.to_string(), 32));
+            }
+        }
+        "aarch64" => {
+            for k in 6..19 {
+                regs.push((format!("x{}", k), 64));
+            }
+            for k in 0..8 {
+                regs.push((format!("v{}", k), 128));
+            }
+        }
+        _ => {}
+    }
+    for (n, b) in regs.iter().map(|(n, b)| (n.as_str(), *b)) {
         if rng.below(100) < undefined_rate {
             continue;
         }
@@ -1138,6 +1197,10 @@ pub fn generate(run_seed: u64, index: u64) -> Script {
             Val::from_u64(data + 16, b)
         } else if b == 1 {
             Val::from_u64(rng.below(2), 1)
+        } else if b > 64 {
+            Val::new(BigUint::from_bytes_be(&rng.bytes(b / 8)), b)
+        } else if b == arch.addr_bits() && rng.chance(1, 3) {
+            Val::from_u64(data + rng.below(32), b)
         } else {
             Val::new(BigUint::from(rng.corner64()), b)
         };
